@@ -138,3 +138,42 @@ def inh_lang(shape, kind='or', depth4=False, ttc=None, tags=(), meta=None, requi
                               meta=mt, requires=requires))
         assets.append(asset(t, sup=p, steps=steps))
     return spec(assets, [assoc('Link', 'Rr', 'ins', '*', '*', 'outs', 'Rr')], lang_id='org.verif.inh')
+
+
+# --------------------------------------------------------------------------- CLS family (C06, C15)
+
+def cls_langs():
+    """-> {name: spec}: inheritance with inherited defenses, every multiplicity form on either side,
+    same-named associations over different type pairs (one of them between subtypes)."""
+    out = {}
+    out['defenses'] = spec([
+        asset('Base', abstract=True, steps=[step('d1', 'defense', ttc=fn('Enabled')), step('d2', 'defense'),
+                                            step('go', 'or')]),
+        asset('Mid', sup='Base', steps=[step('d3', 'defense', ttc=fn('Disabled')), step('d4', 'defense', ttc=fn('Bernoulli', 0.5))]),
+        asset('Leaf', sup='Mid', steps=[step('d1', 'defense', ttc=fn('Enabled'), reaches=[S('go')], overrides=False),
+                                        step('d5', 'defense', ttc=fn('Enabled'))]),
+        asset('Side', sup='Base', steps=[]),
+        asset('Other', steps=[step('o1', 'defense', ttc=fn('Enabled')), step('go', 'or')]),
+    ], [
+        assoc('Owns', 'Base', 'owner', '0..1', '*', 'things', 'Other'),
+        assoc('Pairs', 'Mid', 'mids', '*', '*', 'sides', 'Side'),
+    ], lang_id='org.verif.cls1')
+    forms = ['1', '0..1', '*', '1..*', '0..*', '2', '2..3']
+    assocs = []
+    for i, lf in enumerate(forms):
+        rf = forms[(i * 3 + 1) % len(forms)]
+        assocs.append(assoc(f'M{i}', 'Pp', f'l{i}', lf, rf, f'r{i}', 'Qq'))
+    out['multiplicities'] = spec([
+        asset('Pp', steps=[step('go', 'or')]), asset('P2', sup='Pp'), asset('Qq', steps=[step('go', 'or')]),
+        asset('Q2', sup='Qq'), asset('Zz', steps=[step('go', 'or')]),
+    ], assocs + [assoc('Self', 'Pp', 'prev', '0..1', '0..1', 'next', 'Pp')], lang_id='org.verif.cls2')
+    out['dupnames'] = spec([
+        asset('Top', steps=[step('go', 'or')]), asset('Aa', sup='Top'), asset('Bb', sup='Top'), asset('A2', sup='Aa'),
+        asset('Lone', steps=[step('go', 'or')]),
+    ], [
+        assoc('Conn', 'Aa', 'as', '*', '*', 'bs', 'Bb'),
+        assoc('Conn', 'A2', 'a2s', '0..1', '*', 'lones', 'Lone'),
+        assoc('Conn', 'Top', 'tops', '*', '1', 'lone', 'Lone'),
+        assoc('Solo', 'Lone', 'l1', '*', '*', 'l2', 'Lone'),
+    ], lang_id='org.verif.cls3')
+    return out
